@@ -1,5 +1,6 @@
 import MypyVerif.Model.StubSig
 import MypyVerif.Model.StubImports
+import MypyVerif.Gen.StubCfg
 /-!
 Line-protocol driver for the C19 models (model files only).
 
@@ -18,6 +19,9 @@ DExpr encoding (prefix, space separated): N T Fa | Nm <text> | I <n> | Fl <text>
 String literal i is printed as ⟦i⟧ (the harness substitutes repr(value)).
 -/
 open StubDefault StubSig StubImports
+
+/-- the rules of the tree under check (translate/c19cfg.py) -/
+def cur : DCfg := ⟨StubCfg.notSpaced, StubCfg.nonFiniteEllipsis, StubCfg.bytesQuote⟩
 
 def hexVal (c : Char) : Nat :=
   if c.isDigit then c.toNat - '0'.toNat else if 'a' ≤ c && c ≤ 'f' then c.toNat - 'a'.toNat + 10 else 0
@@ -127,7 +131,7 @@ def doS (magic lens params : String) : String :=
   | none => "bad-op"
   | some ps =>
     let s := buildSig ps
-    let items := emitArgs (lensFn lens) (magic == "1") s.toMypy
+    let items := emitArgs cur (lensFn lens) StubCfg.slashContiguous (magic == "1") s.toMypy
     "(" ++ ", ".intercalate (items.map itemText) ++ ")\t" ++ showParse (parseItems items)
 
 def parseItem (s : String) : Option Item :=
@@ -148,7 +152,7 @@ def doD (lens e : String) : String :=
   match parseDExpr e with
   | none => "bad-op"
   | some e =>
-    let ts := defaultToks (lensFn lens) e
+    let ts := defaultToks cur (lensFn lens) e
     toksText ts ++ "\t" ++ " ".intercalate (ts.map tokCanon) ++ "\t" ++ (inferType e).getD "-"
 
 def dotted (s : String) : DName := (s.splitOn ".").map String.toList
